@@ -55,7 +55,11 @@ Finish == /\ r <= NRuns /\ pc > Len(Prog(r)) /\ r' = r + 1 /\ pc' = 1 /\ hist' =
 \* SIGKILL between two operations: the process is gone, the files stay as they are
 Crash == /\ r <= NRuns /\ pc <= Len(Prog(r)) /\ r' = r + 1 /\ pc' = 1 /\ hist' = Append(hist, [run |-> r, kill |-> pc]) /\ UNCHANGED <<exists, content, wh>>
 InAtomicRegion == ~KF_TornHeaderAppend /\ r <= NRuns /\ Runs[r].append /\ pc <= Len(Prog(r)) /\ Prog(r)[pc].op \in {"hwrite", "write"}
-Next == \/ (Step /\ ~(InAtomicRegion)) \/ AtomicAppend \/ Finish \/ Crash \/ (r > NRuns /\ UNCHANGED vars)
+\* a write fails (disk full, quota, file size limit): WriteResult() returns the error at once; for the files this is the same
+\* as dying at that step - in particular nothing is renamed into place afterwards
+WriteError == /\ r <= NRuns /\ pc <= Len(Prog(r)) /\ Prog(r)[pc].op \in {"write", "hwrite", "qwrite"}
+              /\ r' = r + 1 /\ pc' = 1 /\ hist' = Append(hist, [run |-> r, kill |-> 0 - pc]) /\ UNCHANGED <<exists, content, wh>>
+Next == \/ (Step /\ ~(InAtomicRegion)) \/ AtomicAppend \/ Finish \/ Crash \/ WriteError \/ (r > NRuns /\ UNCHANGED vars)
 Spec == Init /\ [][Next]_vars
 viewNoHist == <<exists, content, r, pc, wh>>
 
